@@ -71,9 +71,9 @@ CHECKS['C42'] = (
     'size and time-out are set on the pool object; virtual time.')
 
 B = 'enum'
-CHECKS['C11'] = (B, 'exploration', 'bounded-exhaustive enumeration vs truth table', '6/C11',
+CHECKS['C11'] = (B, 'exploration', 'bounded-exhaustive enumeration vs truth table + explicit-state exploration of the real Scheduler', '6/C11',
     'All graph-declarable task definitions over the standard outputs and 2 (thorough 3) custom outputs, produced by real graph parses, x all subsets of completed outputs: TaskOutputs.is_complete() vs a truth table of the documented default rule; plus all and/or user expressions <=4 (5) leaves x all subsets vs an independent evaluator. Exhaustive to the bounds.',
-    'Engine-B part only: the scheduler pool removal/retention (A leg) rides on C03; finished sets only for the default rule; the submitted?-only tolerance corner is not judged.')
+    'Plus a scheduler leg (model checking of the real Scheduler over 4 (thorough 7) one-cycle workflows with partial custom outputs, failures and one re-trigger of the possibly incomplete task): a proxy removed as completed must be complete and no complete finished proxy stays pooled at a main-loop boundary. Finished sets only for the default rule; the submitted?-only tolerance corner and the "logged" clause are not judged.')
 CHECKS['C12'] = (B, 'exploration', 'bounded-exhaustive expression enumeration vs truth table', '6/C12',
     'Every and/or completion expression up to 5 (thorough 6) leaves over six outputs is classified by the real get_optional_outputs / iter_required_messages, run through skip-mode process_outputs on a real TaskProxy, and (<=4/5 leaves x all 216 graph optionality declarations) through the real _check_completion_expression plus a cross-section of full WorkflowConfig loads; compared with a brute-force truth table of an independently parsed tree. Exhaustive to the bound.',
     'Validation judged in the stated direction only (accepted => consistent); vacuous and succeeded-and-failed-required expressions not judged for skip mode.')
